@@ -98,6 +98,8 @@ pub const PALETTE: &[Pal] = &[
     p("(expt 2 100)", "big:pos", Big, false, Some(1i128 << 100)),
     p("(- (expt 2 100))", "big:neg", Big, false, Some(-(1i128 << 100))),
     p(BIG_SMALL, "big:small", Big, false, Some(2)),
+    // zero carried as a bignum (bignum arithmetic never demotes its result)
+    p("(- (expt 2 70) (expt 2 70))", "big:zero", Big, true, Some(0)),
     // rationals: proper, negative, integer-valued (n/1), i32 extremes in numerator / denominator
     p("1/2", "rat:frac", Rat, true, None),
     p("-7/3", "rat:frac", Rat, false, None),
@@ -579,6 +581,10 @@ pub const EVAL_LEXEMES: &[&str] = &[
     "string->list", "list->string", "string-copy", "substring", "exact->inexact", "sqrt", "abs", "min", "max",
     "x", "y", "f", "g", "k", "x", "f",
     "0", "1", "2", "-1", "10", "1/2", "1.5", "#t", "#f", "#\\a", "\"s\"", "\"\"", "'()", "()", "#()",
+    // malformed formals and binding lists: numbers, strings, characters, nested lists where a name belongs
+    "(define (g x . 1.5) x)", "(lambda (1.5) 1)", "(lambda (x . 2.5) x)", "(lambda () (define (k 1e3) 1) k)", "(let ((1.5 2)) 1)",
+    "(lambda (x \"s\") x)", "(define (f #t) 1)", "(lambda (#\\a) 1)", "(define ((f)) 1)", "(lambda (x x) x)", "(let loop ((1 2)) 1)",
+    "(define (h . (a 2.0)) 1)", "(lambda (a #(1.5)) a)",
     // literals beyond the double range, with every prefix that converts
     "#i100000000000000000000000000000000000000000000000000000000000000000000000000000000000000000000000000000000000000000000000000000000000000000000000000000000000000000000000000000000000000000000000000000000000000000000000000000000000000000000000000000000000000000000000000000000000000000000000000000000000000000000000000000000", "#e1e400", "#i#xffffffffffffffffffffffffffffffffffffffffffffffffffffffffffffffffffffffffffffffffffffffffffffffffffffffffffffffffffffffffffffffffffffffffffffffffffffffffffffffffffffffffffffffffffffffffffffffffffffffffffffffffffffffffffffffffffffffffffffffffffffffffffffffffffffffffffffff", "#x#iffffffffffffffffffffffffffffffffffffffffffffffffffffffffffffffffffffffffffffffffffffffffffffffffffffffffffffffffffffffffffffffffffffffffffffffffffffffffffffffffffffffffffffffffffffffffffffffffffffffffffffffffffffffffffffffffffffffffffffffffffffffffffffffffffffffffffffff", "#i#b11111111111111111111111111111111111111111111111111111111111111111111111111111111111111111111111111111111111111111111111111111111111111111111111111111111111111111111111111111111111111111111111111111111111111111111111111111111111111111111111111111111111111111111111111111111111111111111111111111111111111111111111111111111111111111111111111111111111111111111111111111111111111111111111111111111111111111111111111111111111111111111111111111111111111111111111111111111111111111111111111111111111111111111111111111111111111111111111111111111111111111111111111111111111111111111111111111111111111111111111111111111111111111111111111111111111111111111111111111111111111111111111111111111111111111111111111111111111111111111111111111111111111111111111111111111111111111111111111111111111111111111111111111111111111111111111111111111111111111111111111111111111111111111111111111111111111111111111111111111111111111111111111111111111111111111111111111111111111111111111111111111111111111111111111111111111111111111111111111111111111111111111111111111111111111111111111111111111111111111111111111111111111111111", "#e1.5e-400", "100000000000000000000000000000000000000000000000000000000000000000000000000000000000000000000000000000000000000000000000000000000000000000000000000000000000000000000000000000000000000000000000000000000000000000000000000000000000000000000000000000000000000000000000000000000000000000000000000000000000000000000000000000000.5", "#i-100000000000000000000000000000000000000000000000000000000000000000000000000000000000000000000000000000000000000000000000000000000000000000000000000000000000000000000000000000000000000000000000000000000000000000000000000000000000000000000000000000000000000000000000000000000000000000000000000000000000000000000000000000000/3",
     // literals with prefixes in both cases, and character literals at the edges of the scalar range
